@@ -244,3 +244,55 @@ func ipEvent(pred func(ssa.Instruction) bool, depth int) func(ssa.Instruction) b
 	}
 	return self
 }
+
+// ipEventOK: like ipEvent, but a callee also counts as "passes the event" when
+// the only exits that miss it return a known non-nil error (the event happens on
+// every successful path of the helper).
+func ipEventOK(pred func(ssa.Instruction) bool, depth int) func(ssa.Instruction) bool {
+	var self func(in ssa.Instruction) bool
+	memo := map[*ssa.Function]int{}
+	self = func(in ssa.Instruction) bool {
+		if pred(in) {
+			return true
+		}
+		if depth <= 0 {
+			return false
+		}
+		ci := callInfo(in, nil, 0)
+		if ci == nil || ci.Static == nil || !inModule(ci.Static) || ci.Static.Blocks == nil || ci.Kind != "call" {
+			return false
+		}
+		g := ci.Static
+		switch memo[g] {
+		case 1:
+			return true
+		case 2, 3:
+			return false
+		}
+		memo[g] = 3
+		inner := ipEventOK(pred, depth-1)
+		ei := errResultIndex(g.Signature)
+		facts := factsFor(g)
+		ok := len(returnsOf(g)) > 0
+		passed := false
+		for _, e := range MustPass(g, nil, inner) {
+			r, isR := e.Instr.(*ssa.Return)
+			if !isR || ei < 0 || !facts.HoldsOnAllEdges(r.Block(), func(fs factSet) bool { return knownNilIn(fs, r.Results[ei], false) }) {
+				ok = false
+			}
+		}
+		// the event must actually occur somewhere in g
+		eachInstr(g, func(_ *ssa.BasicBlock, _ int, in2 ssa.Instruction) {
+			if inner(in2) {
+				passed = true
+			}
+		})
+		if ok && passed {
+			memo[g] = 1
+			return true
+		}
+		memo[g] = 2
+		return false
+	}
+	return self
+}
